@@ -285,12 +285,6 @@ func execC20(body json.RawMessage) *kernel.Result {
 	return res
 }
 
-func trunc(s string, n int) string {
-	if len(s) > n {
-		return s[:n] + "…"
-	}
-	return s
-}
 
 func histLen(h [][]histStep, i int) int {
 	n := 0
